@@ -774,7 +774,7 @@ fn print_sheet(rng: &mut Rng, rules: &[Rule], style: usize) -> String {
         for (k, (p, v, imp)) in r.decls.iter().enumerate() {
             o.push_str(&ws(rng));
             if style > 0 && rng.chance(1, 5) {
-                o.push_str(*rng.pick(&["frobnicate: 12px solid;", "background-image:url(data:image/png;base64,AAA=);", "x:(a;b);", "grid-area: [a;b] 1 / 2;", "width:calc(1px + (2px * 3));", "font: 12px/1.5 \"a;b}\", serif;", "-webkit-Foo:bar(1; 2px) 50% #Ab;", "font-family: \"Jim's Font\", serif;", "font-family: 'Say \"hi\" Font';", "quotes: \"'\" \"'\";", "font-family: \"Foo \\\"Bar\\\"; x\", serif;", "content: 'it\\'s; here';", "content: \"a\\\\\";", "content: \"line\\\ncontinued; on\";"]));
+                o.push_str(*rng.pick(&["frobnicate: 12px solid;", "background-image:url(data:image/png;base64,AAA=);", "x:(a;b);", "grid-area: [a;b] 1 / 2;", "width:calc(1px + (2px * 3));", "font: 12px/1.5 \"a;b}\", serif;", "-webkit-Foo:bar(1; 2px) 50% #Ab;", "font-family: \"Jim's Font\", serif;", "font-family: 'Say \"hi\" Font';", "quotes: \"'\" \"'\";", "font-family: \"Foo \\\"Bar\\\"; x\", serif;", "content: 'it\\'s; here';", "content: \"a\\\\\";", "content: \"line\\\ncontinued; on\";", "x-junk: image-set(url(a.png) 1x; b);", "x-junk: f(g(a);b);", "x-junk: [a [b] ; c];", "x-junk: f(g(a); color: #00ff00);", "x-junk: ((a)(b);[c];d);"]));
                 o.push_str(&ws(rng));
             }
             if style > 0 && k == 0 && rng.chance(1, 6) {
